@@ -1287,6 +1287,8 @@ class System:
             # Else, the last added module wins
             self._remove(first)
             self.unprocessed_modules.remove(first)
+            if first in self.rootobjects:
+                self.rootobjects.remove(first)
             self._addUnprocessedModule(dup)
 
     def _introspectThing(self, thing: object, parent: CanContainImportsDocumentable, parentMod: _ModuleT) -> None:
